@@ -183,6 +183,19 @@ class Ptr:
             return "&?"
 
 
+class Guard(Ptr):
+    """Lock guard handed out while the two-thread race mode is on: remembers which lock, which mode, which model thread."""
+
+    __slots__ = ("mode", "owner", "released", "site")
+
+    def __init__(self, c, k, mode, owner, site=""):
+        Ptr.__init__(self, c, k)
+        self.mode = mode
+        self.owner = owner
+        self.released = False
+        self.site = site
+
+
 class ValPtr:
     """Pseudo pointer to an unsized / by-value thing (str, slice view) that has no slot."""
 
